@@ -50,7 +50,7 @@ func rootsFor(eng *Engine, tag string) []root {
 		if sp.Trusted || sp.Ghost {
 			continue
 		}
-		relevant := specHasTag(sp, tag, KEnsures, KInvariant, KCover, KAssertCall)
+		relevant := specHasTag(sp, tag, KEnsures, KInvariant, KCover, KAssertCall, KReturns)
 		for _, t := range sp.NoPanicT {
 			if t == tag {
 				relevant = true
